@@ -733,6 +733,9 @@ impl SixtyCycleDay {
       if !solar_day.is_before(spring_solar_day) {
         lunar_year = lunar_year.next(1);
       }
+    } else {
+      // 农历年早于公历年底开始(公元9-23年)，干支年仍是公历年
+      lunar_year = lunar_year.next(-1);
     }
     let term: SolarTerm = solar_day.get_term();
     let mut index: isize = term.get_index() as isize - 3;
@@ -908,6 +911,9 @@ impl SixtyCycleHour {
       if !solar_time.is_before(spring_solar_time) {
         lunar_year = lunar_year.next(1);
       }
+    } else {
+      // 农历年早于公历年底开始(公元9-23年)，干支年仍是公历年
+      lunar_year = lunar_year.next(-1);
     }
     let term: SolarTerm = solar_time.get_term();
     let mut index: isize = term.get_index() as isize - 3;
